@@ -157,6 +157,8 @@ def generate(rng, tier, profile='default'):
   # lengths on both sides of n_test + 3 (A/A test available or not)
   def pick_len():
     r = rng.random()
+    if r < 0.02:
+      return n_test + 3 + rng.choice((126, 127, 128, 129, 255, 256, 257, 400))
     if r < 0.2:
       return max(3, n_test + rng.choice((0, 1, 2)))
     if r < 0.3:
@@ -180,8 +182,13 @@ def generate(rng, tier, profile='default'):
     for _ in range(rng.choice((0, 1, 1, 2))):
       src = list(series[rng.randrange(first, len(series))])
       how = rng.choice(('perm', 'rev', 'same_ends', 'same_mean', 'near_dup',
-                        'near_dup', 'affine'))
-      if how == 'affine' and all(not isinstance(v, str) for v in src):
+                        'near_dup', 'affine', 'bitcast'))
+      if how == 'bitcast' and all(isinstance(v, float) for v in src):
+        # another dtype with the very same bytes: the int64 words of the
+        # float64 values (what a raw-buffer comparison would confuse)
+        import struct  # pylint: disable=g-import-not-at-top
+        src = [struct.unpack('<q', struct.pack('<d', v))[0] for v in src]
+      elif how == 'affine' and all(not isinstance(v, str) for v in src):
         # exactly affinely related: |correlation| = 1, required_impact raises
         a, b = rng.choice((2, -2, 0.5, 4)), rng.choice((0, 3, -8))
         src = [a * v + b for v in src]
@@ -217,6 +224,7 @@ def generate(rng, tier, profile='default'):
   p_fault = rng.choice((0.0, 0.0, 0.1, 0.2))
   p_alias = rng.choice((0.0, 0.0, 0.0, 0.15))
   p_snap = rng.choice((0.03, 0.08, 0.15))
+  p_churn = rng.choice((0.0, 0.0, 0.0, 0.0, 0.02))
   objs = [0]
   cur_len = {0: lengths[0]}
   ops = []
@@ -232,7 +240,12 @@ def generate(rng, tier, profile='default'):
       ops.append({'op': 'caller_mutates', 'o': o,
                   'which': rng.choice(('x', 'y')), 'pos': rng.randrange(64),
                   'v': _round(rng.uniform(-100, 100))})
-    elif r < p_fault + p_alias + p_snap and len(objs) < 4:
+    elif r < p_fault + p_alias + p_churn:
+      # many short-lived sibling objects: evictions of bounded caches, reuse
+      # of object ids
+      ops.append({'op': 'churn', 'n': rng.choice((40, 130, 140, 300)),
+                  's': rng.randrange(len(series))})
+    elif r < p_fault + p_alias + p_churn + p_snap and len(objs) < 4:
       new = max(objs) + 1
       if rng.random() < 0.4:
         # an unrelated sibling object built mid-history (shares only the
@@ -412,6 +425,22 @@ def execute(desc):
   for step, op in enumerate(desc['ops']):
     kind = op['op']
     stats['ops'] += 1
+    if kind == 'churn':
+      base_series = series[op['s']]
+      for j in range(op['n']):
+        tmp = tbrmmdiagnostics.TBRMMDiagnostics(
+            np.array(base_series, dtype=float) * (1.0 + j), new_par())
+        try:
+          tmp.x = np.array(base_series[::-1], dtype=float) + j
+          tmp.bbtest  # pylint: disable=pointless-statement
+          tmp.required_impact  # pylint: disable=pointless-statement
+        except Exception:  # pylint: disable=broad-except
+          pass
+        del tmp
+      fault('churn_of_short_lived_objects')
+      events.append([step, kind, op['n']])
+      absig.append((kind,))
+      continue
     if kind == 'new':
       yn = np.array(series[op['s']])
       pk = par2_kwargs if op.get('p') else par_kwargs
@@ -644,7 +673,7 @@ def normalize(desc):
   alive = {0}
   ops = []
   for op in d['ops']:
-    if op['op'] != 'new' and op.get('o', 0) not in alive:
+    if op['op'] not in ('new', 'churn') and op.get('o', 0) not in alive:
       continue
     if op['op'] in ('snapshot', 'new'):
       alive.add(op['id'])
@@ -686,7 +715,7 @@ def simplifications(desc):
       yield d
   # ops on snapshots moved to the original
   for i, op in enumerate(desc['ops']):
-    if op.get('o', 0) != 0 and op['op'] not in ('snapshot', 'new'):
+    if op.get('o', 0) != 0 and op['op'] not in ('snapshot', 'new', 'churn'):
       d = copy.deepcopy(desc)
       d['ops'][i]['o'] = 0
       yield d
